@@ -157,7 +157,7 @@ def r1(ctx):
         key = f"chess_lookup::{kind}_moves"
         ctx.used_body(key)
         leaves = eng.tabulate(key)
-        pos, occ = ("param", 0, "pos"), ("param", 1, "all_pieces")
+        pos, occ = ("param", 0, "a0"), ("param", 1, "a1")
         magic = ("index", ("obj", ("static", mod + "::MOVES_MAGIC")), ("cast", "usize", ("discr", pos)))
         f = lambda n: ("field", magic, n)
         blockers = eng.binop("BitAnd", f("mask"), ("field", occ, "0"))
